@@ -14,6 +14,7 @@ import Alpaqa.Proofs.C12Forward
 import Alpaqa.Proofs.C12Penalty
 import Alpaqa.Proofs.C12Adjoint
 import Alpaqa.Proofs.C12Riccati
+import Alpaqa.Proofs.C12Optimal
 import Mathlib.Tactic.NormNum
 import Mathlib.Algebra.Order.Field.Rat
 
@@ -329,18 +330,72 @@ theorem riccati_masks_from_indexset (cond : Nat → Bool) (nu : Nat) :
     (buildJ cond nu ++ computeComplement (buildJ cond nu) nu).Perm (List.range nu) :=
   (complement_spec cond nu).2.2.2.2
 
-/- `riccati_optimal_partial` — full statement (DESIGN §6 C12), NOT proved here:
-     if moreover every reduced input Hessian `R̄_t = R_t[J,J] + B_t[:,J]ᵀ P_{t+1} B_t[:,J]` is positive
-     definite, then `(Δx, Δu)` is the unique minimiser of the masked QP above (= the step of a dense
-     KKT solve).
-   What is proved: `riccati_kkt` (first-order optimality of the returned step, any solve meeting the
-   contract).  Missing: the completion-of-squares identity
-     `cost(Δx', Δu') − cost(Δx, Δu) = ½ Σ_t w_tᵀ R̄_t w_t`, `w_t = Δu'_t[J] − K_tΔx'_t − e_t`
-   over all feasible `(Δx', Δu')` (backward induction on the cost-to-go `½ΔxᵀP_tΔx + s_tᵀΔx`).
-   On the real code optimality is what the monitor of `checks/c12.py` demands: the returned step
-   must equal the exact rational solution of the dense KKT system (unique for `R̄_t ≻ 0`). -/
-
 end riccati
+
+section optimal
+variable {α : Type} [Field α] [LinearOrder α] [IsStrictOrderedRing α]
+
+/-- **The step is the minimiser of the masked QP** (= what a dense KKT solve returns).
+    Under the hypotheses of `riccati_kkt` and positive-semidefinite reduced input Hessians
+    `R̄_t = R_t[J,J] + B_t[:,J]ᵀ P_{t+1} B_t[:,J]`:  the returned `(Δx, Δu)` is feasible
+    (`Δx₀ = 0`, dynamics, fixed components at their values) and for every feasible `(X', U')`
+      `cost(X', U') − cost(Δx, Δu) = Σ_t ½ w_tᵀ R̄_t w_t ≥ 0`, `w_t = δu_t[J] − K_t δx_t`
+    (`qpCost`: `Σ_t [½xᵀQ_t x + uᵀS_t x + ½uᵀR_t u + q_tᵀx + r_tᵀu] + ½x_NᵀQ_N x_N + q_Nᵀx_N`).
+    Cholesky and LU share the statement: only `SolveOK` is used of the factorisation. -/
+theorem riccati_optimal (N nx nu : Nat) (solveM : Mat α → Mat α → Mat α)
+    (solveV : Mat α → Vec α → Vec α) (data : Nat → LQRStage α) (QN : Mat α) (qN : Vec α)
+    (hpart : ∀ i < N, ((data i).J ++ (data i).K).Perm (List.range nu))
+    (hQ : ∀ i < N, SymM nx (data i).Q) (hQN : SymM nx QN)
+    (hR : ∀ i < N, ∀ a < nu, ∀ b < nu, mget (data i).R a b = mget (data i).R b a)
+    (hsolve : ∀ i < N, SolveOK nx nu solveM solveV (data i)
+      (ricStg N nx nu solveM solveV data QN qN i).Pn (ricStg N nx nu solveM solveV data QN qN i).sn)
+    (hPSD : ∀ t < N, ∀ w : Fin (data t).J.length → α,
+      0 ≤ bil (toM (data t).J.length (data t).J.length
+        (ricStg N nx nu solveM solveV data QN qN t).Rbar) w w) :
+    QPFeasible N nx nu data
+      (fun t => toV nx (ricDx N nx nu solveM solveV data QN qN t))
+      (fun t => toV nu (ricDu N nx nu solveM solveV data QN qN t)) ∧
+    ∀ (X' : Nat → Fin nx → α) (U' : Nat → Fin nu → α), QPFeasible N nx nu data X' U' →
+      qpCost N nx nu data QN qN X' U'
+          - qpCost N nx nu data QN qN
+              (fun t => toV nx (ricDx N nx nu solveM solveV data QN qN t))
+              (fun t => toV nu (ricDu N nx nu solveM solveV data QN qN t))
+        = ∑ t ∈ Finset.range N,
+            1 / 2 * bil (toM (data t).J.length (data t).J.length
+                (ricStg N nx nu solveM solveV data QN qN t).Rbar)
+              (ricW N nx nu solveM solveV data QN qN X' U' t)
+              (ricW N nx nu solveM solveV data QN qN X' U' t) ∧
+      qpCost N nx nu data QN qN
+          (fun t => toV nx (ricDx N nx nu solveM solveV data QN qN t))
+          (fun t => toV nu (ricDu N nx nu solveM solveV data QN qN t))
+        ≤ qpCost N nx nu data QN qN X' U' :=
+  ⟨ric_feasible N nx nu solveM solveV data QN qN hpart, fun X' U' hf =>
+    ⟨ric_cost_gap N nx nu solveM solveV data QN qN hpart hQ hQN hR hsolve X' U' hf,
+     ric_optimal N nx nu solveM solveV data QN qN hpart hQ hQN hR hsolve X' U' hf hPSD⟩⟩
+
+/-- …and with positive-*definite* reduced input Hessians it is the *unique* minimiser: a feasible
+    point with the same cost coincides with the returned step. -/
+theorem riccati_unique (N nx nu : Nat) (solveM : Mat α → Mat α → Mat α)
+    (solveV : Mat α → Vec α → Vec α) (data : Nat → LQRStage α) (QN : Mat α) (qN : Vec α)
+    (hpart : ∀ i < N, ((data i).J ++ (data i).K).Perm (List.range nu))
+    (hQ : ∀ i < N, SymM nx (data i).Q) (hQN : SymM nx QN)
+    (hR : ∀ i < N, ∀ a < nu, ∀ b < nu, mget (data i).R a b = mget (data i).R b a)
+    (hsolve : ∀ i < N, SolveOK nx nu solveM solveV (data i)
+      (ricStg N nx nu solveM solveV data QN qN i).Pn (ricStg N nx nu solveM solveV data QN qN i).sn)
+    (hPD : ∀ t < N, ∀ w : Fin (data t).J.length → α, w ≠ 0 →
+      0 < bil (toM (data t).J.length (data t).J.length
+        (ricStg N nx nu solveM solveV data QN qN t).Rbar) w w)
+    (X' : Nat → Fin nx → α) (U' : Nat → Fin nu → α) (hf : QPFeasible N nx nu data X' U')
+    (heq : qpCost N nx nu data QN qN X' U' = qpCost N nx nu data QN qN
+      (fun t => toV nx (ricDx N nx nu solveM solveV data QN qN t))
+      (fun t => toV nu (ricDu N nx nu solveM solveV data QN qN t))) :
+    (∀ t ≤ N, X' t = toV nx (ricDx N nx nu solveM solveV data QN qN t)) ∧
+    (∀ t < N, U' t = toV nu (ricDu N nx nu solveM solveV data QN qN t)) :=
+  ric_unique N nx nu solveM solveV data QN qN hpart hQ hQN hR hsolve X' U' hf hPD heq
+
+end optimal
+
+
 
 /-! ### Non-vacuity: the hypotheses hold for concrete instances over `ℚ` -/
 section examples
@@ -404,6 +459,20 @@ example : SymM 1 ([[1]] : Mat ℚ) := by
 example : ricDu 1 1 1 exSolveM exSolveV (fun _ => exStage) [[1]] [0] 0 = [0] ∧
     (ricStg 1 1 1 exSolveM exSolveV (fun _ => exStage) [[1]] [0] 0).Rbar = [[2]] := by
   decide +kernel
+
+/-- the reduced input Hessian `R̄₀ = 2` of that instance is positive definite -/
+example (w : Fin 1 → ℚ) (hw : w ≠ 0) :
+    0 < bil (toM 1 1 (ricStg 1 1 1 exSolveM exSolveV (fun _ => exStage) [[1]] [0] 0).Rbar) w w := by
+  have hR : (ricStg 1 1 1 exSolveM exSolveV (fun _ => exStage) [[1]] [0] 0).Rbar = [[2]] := by
+    decide +kernel
+  have h0 : w 0 ≠ 0 := by
+    intro h; apply hw; ext i; fin_cases i; exact h
+  rw [hR]
+  simp only [bil, Matrix.mulVec, dotProduct, Finset.univ_unique, Fin.default_eq_zero,
+    Finset.sum_singleton, toM, mget]
+  have : (0 : ℚ) < w 0 * w 0 := mul_self_pos.mpr h0
+  simp
+  nlinarith
 
 end examples
 
